@@ -86,6 +86,12 @@ mod verif_kani {
         model_reset(false);
         let r_a = crate::single_shot::single_shot_open_in_place_detached::<ModelAead, HkdfSha256, ModelKem>(&mode_a, &sk, &enc, info, &mut ct_a, b"aad", &tag);
         let (calls_a, nonce_a) = (model_calls(), model_last_nonce());
+        // path A once more (C18: the result is a function of the arguments - a repeated call gives the same answer)
+        let mode_a2 = any_mode_r(k, pks.clone(), psk, id);
+        let mut ct_a2 = ct0;
+        model_reset(false);
+        let r_a2 = crate::single_shot::single_shot_open_in_place_detached::<ModelAead, HkdfSha256, ModelKem>(&mode_a2, &sk, &enc, info, &mut ct_a2, b"aad", &tag);
+        assert!(r_a2 == r_a && ct_a2 == ct_a && model_calls() == calls_a);
         // path B: receiver setup followed by one open
         let mode_b = any_mode_r(k, pks.clone(), psk, id);
         let mut ct_b = ct0;
